@@ -211,23 +211,27 @@ def control_deps(body):
     return direct
 
 
-def control_deps_closed(body):
+def control_deps_closed(body, intra_iteration=False):
+    """transitive closure of control dependence (least fixpoint). With intra_iteration=True a dependence of a loop
+    header on a branch inside its own loop body (carried by the back edge: "the previous iteration did not bail out")
+    is not followed, so the result describes one iteration."""
     direct = control_deps(body)
-    closed = {}
-
-    def walk(n, seen):
-        if n in closed:
-            return closed[n]
-        res = set()
-        for (a, b) in direct[n]:
-            res.add((a, b))
-            if a not in seen:
-                res |= walk(a, seen | {a})
-        closed[n] = res
-        return res
-
-    for n in direct:
-        walk(n, {n})
+    if intra_iteration:
+        filt = {}
+        for n, deps in direct.items():
+            filt[n] = set((a, b) for (a, b) in deps if not (a != n and dominates(body, n, a)))
+        direct = filt
+    closed = {n: set(d) for n, d in direct.items()}
+    changed = True
+    while changed:
+        changed = False
+        for n in closed:
+            acc = closed[n]
+            before = len(acc)
+            for (a, b) in list(direct[n]):
+                acc |= closed.get(a, set())
+            if len(acc) != before:
+                changed = True
     return closed
 
 
